@@ -243,7 +243,7 @@ class BuiltinMixin:
     if h is not None:
       return VFn(full, impl=h)
     if base == 'itertools' and name == 'chain':
-      return VModule('itertools.chain')
+      return VFn('itertools.chain', impl=self.lib_itertools_chain)
     if dotted == 'itertools.chain' and name == 'from_iterable':
       return VFn('itertools.chain.from_iterable', impl=self.lib_itertools_chain_from_iterable)
     if base in ('logging',):
@@ -362,6 +362,23 @@ class BuiltinMixin:
     mx = z3.If(absf(x.t) >= absf(y.t), absf(x.t), absf(y.t))
     tol = z3.If(rel * mx >= ab, rel * mx, ab)
     return VBool(z3.And(z3.Not(x.nan), z3.Not(y.nan), absf(x.t - y.t) <= tol))
+
+  def lib_itertools_chain(self, it, a, k):
+    """itertools.chain(*concrete iterables): their concatenation."""
+    out = []
+    for x in a:
+      out.extend(self.iter_concrete(x))
+    return VList(out)
+
+  def lib_more_itertools_partition(self, it, a, k):
+    """more_itertools.partition(pred, iterable) over a concrete collection: (items with false pred, items with true pred)."""
+    pred, items = a[0], self.iter_concrete(a[1])
+    no, yes = [], []
+    for x in items:
+      (yes if self.branch(self.truth(self.call_value(pred, [x], {}))) else no).append(x)
+    return VTuple([VList(no), VList(yes)])
+
+  lib_mit_partition = lib_more_itertools_partition
 
   def lib_itertools_chain_from_iterable(self, it, a, k):
     """chain.from_iterable(parts): an opaque iterator that delivers its parts one after the other; the ghost
